@@ -171,6 +171,8 @@ class EffectInterp(Interpreter):
             return z3.Const(f"const:type:{v.name}", ObjS)
         if isinstance(v, ExcVal):
             return self.exc_term(v)
+        if isinstance(v, Rec) and v._cls is not None and v._cls.name in getattr(self, "new_function_classes", ()):
+            return z3.Const("const:the-function-being-defined", ObjS)
         if isinstance(v, (FuncVal, BoundMethod, Rec)) or callable(v):
             from .values import obj_of
             return obj_of(v)
